@@ -291,7 +291,7 @@ func (ck *checker) failing(b *batch, u *unit, p *Prog, m *mismatch) {
 			ck.harness(fmt.Sprintf("shape %s/%s fails inside its file but not alone (%s)", s.Family, s.Tag, m.Kind))
 			return
 		}
-		key := fmt.Sprintf("shape:%s/%s:%s", s.Family, s.Cause, shortHash(s.Tmpl))
+		key := fmt.Sprintf("%s/%s:%s", s.Family, s.Cause, shortHash(s.Tmpl))
 		f.key = key
 		atomic.AddInt64(&ck.nViol, 1)
 		ck.r.Violation(key, violDetail{Kind: "shape", Feature: s.Family + "/" + s.Cause, Mismatch: *mm, Source: s.Src, Prog: sp, FnName: sp.Fns[mm.Fn].Name, ShapeTag: s.Tag})
@@ -328,7 +328,7 @@ func (ck *checker) failing(b *batch, u *unit, p *Prog, m *mismatch) {
 	}
 	one := &Prog{Prelude: b.prelude, Fns: []Fn{minFn}}
 	norm := strings.Replace(minFn.Src, "func "+minFn.Name+"(", "func F(", 1)
-	feat := "frame-" + minFn.Feature + "/" + strings.Join(minFn.Paths, "+")
+	feat := "grammar-" + minFn.Feature + "/" + strings.Join(minFn.Paths, "+")
 	if len(feat) > 90 {
 		feat = feat[:90]
 	}
@@ -379,6 +379,19 @@ func (ck *checker) minimise(b *batch, u *unit, m *mismatch) (Fn, mismatch) {
 		}
 	}
 	return bestFn, bestM
+}
+
+// isChain: every statement list has at most one statement.
+func isChain(list []*node) bool {
+	if len(list) > 1 {
+		return false
+	}
+	for _, s := range list {
+		if !isChain(s.body) {
+			return false
+		}
+	}
+	return true
 }
 
 func sizeOf(list []*node) int {
@@ -509,8 +522,12 @@ func (ck *checker) buildBatches(thorough bool, stats map[string]any) []*batch {
 	enumerated, rejected := map[string]int{}, map[string]int{}
 	maxSize := 0
 	for _, f := range frames {
-		alpha = append(alpha, fmt.Sprintf("frame %s: %d atoms, %d compound productions, %d conditions, <=%d nodes, nesting <=%d",
-			f.fr.name, len(f.fr.atoms), len(f.fr.comps), len(f.fr.conds), f.maxNodes, f.depth))
+		note := ""
+		if !thorough && f.fr.name == "I" {
+			note = " (bodies of 3 nodes: only those nested as a chain)"
+		}
+		alpha = append(alpha, fmt.Sprintf("frame %s: %d atoms, %d compound productions, %d conditions, <=%d nodes, nesting <=%d%s",
+			f.fr.name, len(f.fr.atoms), len(f.fr.comps), len(f.fr.conds), f.maxNodes, f.depth, note))
 		if f.maxNodes > maxSize {
 			maxSize = f.maxNodes
 		}
@@ -522,11 +539,11 @@ func (ck *checker) buildBatches(thorough bool, stats map[string]any) []*batch {
 			}
 			var us []*unit
 			n := 0
-			top := size
-			if !thorough && f.fr.name == "I" && size == 3 {
-				top = 1 // quick: at three nodes only the nested bodies
-			}
-			f.fr.enumerateTop(size, f.depth, top, func(body []*node) {
+			chainOnly := !thorough && f.fr.name == "I" && size == 3 // quick: at three nodes only the nesting chains
+			f.fr.enumerate(size, f.depth, func(body []*node) {
+				if chainOnly && !isChain(body) {
+					return
+				}
 				n++
 				name := fmt.Sprintf("G%s%d_%d", f.fr.name, size, n)
 				fn, ok := f.fr.build(name, body)
